@@ -90,3 +90,120 @@ Proof.
 Qed.
 
 End Safe.
+
+(* ---------- arbitrary (custom) lexers ---------- *)
+Section CustomLexer.
+Variable g : grammar.
+Variable T : table.
+Hypothesis Hwf : wf_grammar_b g = true.
+Hypothesis Hsafe : safe_b g T = true.
+
+Lemma step_lex_default partial c : step_lex g T (default_lex T partial) c = step g T partial c.
+Proof.
+  unfold step_lex, step, default_lex. destruct (c_stk c) as [|s stk]; reflexivity.
+Qed.
+
+Lemma run_lex_default partial : forall fuel c, run_lex g T (default_lex T partial) fuel c = run g T partial fuel c.
+Proof.
+  induction fuel as [|fuel IH]; intros c; simpl; [reflexivity|].
+  rewrite step_lex_default. destruct (step g T partial c); [apply IH|reflexivity].
+Qed.
+
+Lemma cell_lt a s act : In act (cell T s a) -> a < g_nterm g.
+Proof.
+  intros Hin. destruct (cell_In_state T _ _ _ Hin) as [st [Hs Hn]].
+  pose proof (shape_state g T (safe_sound g T Hsafe) s st Hs) as H. unfold shape_state_b in H.
+  repeat (apply andb_true_iff in H; let H' := fresh "Hh" in destruct H as [H H']).
+  apply Nat.eqb_eq in H. rewrite <- H. apply nth_error_Some. congruence.
+Qed.
+
+(* the stack discipline alone (no statement about the input) is invariant under ANY lexer *)
+Lemma step_lex_linked lex c c' :
+  linked g T 0 (c_stk c) (c_trs c) -> step_lex g T lex c = Next c' -> linked g T 0 (c_stk c') (c_trs c').
+Proof.
+  intros Hl Hstep. pose proof (safe_sound g T Hsafe) as Hsound. unfold step_lex in Hstep.
+  destruct (c_stk c) as [|s stk] eqn:Hstk; [discriminate|].
+  destruct (lex c) as [a real|]; [|discriminate].
+  destruct (cell T s a) as [|act acts] eqn:Hcell; [discriminate|].
+  assert (Hin : In act (cell T s a)) by (rewrite Hcell; left; reflexivity).
+  destruct (action_ok g T Hsound _ _ _ Hin) as [st [Hs Hok]].
+  destruct act as [s'|p len|].
+  - inversion Hstep; subst c'; clear Hstep. simpl in Hok. apply Nat.ltb_lt in Hok. simpl.
+    apply L_cons; [apply (cell_shift_trans g T); exact Hin| |exact Hl].
+    constructor. split; [exact Hok|eapply cell_lt; exact Hin].
+  - destruct (length (s :: stk) <=? len) eqn:Hlen; [discriminate|].
+    destruct (skipn len (s :: stk)) as [|from stk'] eqn:Hskip; [discriminate|].
+    destruct (goto T from (lhs g p - g_nterm g)) as [s'|] eqn:Hgoto; [|discriminate].
+    destruct (length (c_trs c) <? len) eqn:Hlen2; [discriminate|].
+    inversion Hstep; subst c'; clear Hstep. simpl.
+    simpl in Hok. apply andb_true_iff in Hok. destruct Hok as [Hok Hlhs].
+    apply andb_true_iff in Hok. destruct Hok as [Hitem Hlen3].
+    apply Nat.eqb_eq in Hlen3. apply Nat.ltb_lt in Hlhs.
+    assert (Hit : has_item T s p len) by (exists st; split; assumption).
+    destruct (linked_top_items g T Hsound 0 (is_start_0 T) _ _ _ _ _ Hl Hit) as [Hle [_ Hmap]].
+    rewrite Hlen3 in Hmap at 2. rewrite firstn_all in Hmap.
+    pose proof (linked_skipn g T 0 len _ _ Hl Hle) as Hl'. rewrite Hskip in Hl'.
+    destruct (item_wf g T Hsound _ _ _ Hit) as [pr [Hpr _]].
+    assert (Hrhs : rhs g p = p_rhs pr) by (unfold rhs; rewrite Hpr; reflexivity).
+    apply L_cons.
+    + simpl. replace (lhs g p) with (g_nterm g + (lhs g p - g_nterm g)) by lia.
+      apply (goto_trans g T). exact Hgoto.
+    + econstructor; [exact Hpr| |].
+      * rewrite <- Hrhs. exact Hmap.
+      * apply Forall_rev. apply Forall_forall. intros x Hx.
+        pose proof (linked_valid g T _ _ _ Hl) as Hv. rewrite Forall_forall in Hv. apply Hv.
+        eapply In_firstn_In. exact Hx.
+    + exact Hl'.
+  - destruct (c_trs c); discriminate.
+Qed.
+
+Lemma step_lex_no_panic lex c n :
+  linked g T 0 (c_stk c) (c_trs c) -> step_lex g T lex c <> Done (Panic n).
+Proof.
+  intros Hl Hstep. pose proof (safe_sound g T Hsafe) as Hsound. unfold step_lex in Hstep.
+  destruct (c_stk c) as [|s stk] eqn:Hstk.
+  - destruct (linked_last g T _ _ _ Hl) as [_ Hne]. congruence.
+  - destruct (lex c) as [a real|]; [|discriminate].
+    destruct (cell T s a) as [|act acts] eqn:Hcell; [discriminate|].
+    assert (Hin : In act (cell T s a)) by (rewrite Hcell; left; reflexivity).
+    destruct (action_ok g T Hsound _ _ _ Hin) as [st [Hs Hok]].
+    destruct act as [s'|p len|].
+    + discriminate.
+    + simpl in Hok. apply andb_true_iff in Hok. destruct Hok as [Hok _].
+      apply andb_true_iff in Hok. destruct Hok as [Hitem _].
+      assert (Hit : has_item T s p len) by (exists st; split; assumption).
+      destruct (linked_top_items g T Hsound 0 (is_start_0 T) _ _ _ _ _ Hl Hit) as [Hle [[si [Hsi Hsi0]] _]].
+      pose proof (linked_length g T _ _ _ Hl) as Hlen. cbn [length] in Hlen.
+      destruct (length (s :: stk) <=? len) eqn:E1.
+      { apply Nat.leb_le in E1. cbn [length] in E1. lia. }
+      destruct (skipn len (s :: stk)) as [|from stk'] eqn:Hskip.
+      { pose proof (f_equal (@length nat) Hskip) as Hl2. rewrite skipn_length in Hl2. cbn [length] in Hl2.
+        apply Nat.leb_gt in E1. cbn [length] in E1. lia. }
+      assert (Hfrom : from = si).
+      { pose proof (hd_error_skipn (s :: stk) len) as Hh. rewrite Hskip, Hsi in Hh. simpl in Hh. congruence. }
+      subst from.
+      destruct (goto_defined g T Hsafe si p Hsi0 (reduce_not_aug g T Hsafe _ _ _ _ Hin)) as [s' Hg]. rewrite Hg in Hstep.
+      destruct (length (c_trs c) <? len) eqn:E2; [|discriminate].
+      apply Nat.ltb_lt in E2. lia.
+    + simpl in Hok. apply andb_true_iff in Hok. destruct Hok as [_ Hitems].
+      destruct (c_trs c) as [|t0 ts] eqn:Htrs; [|discriminate].
+      apply orb_true_iff in Hitems. destruct Hitems as [Hi|Hi].
+      * assert (Hit : has_item T s 0 1) by (exists st; split; assumption).
+        destruct (linked_top_items g T Hsound 0 (is_start_0 T) _ _ _ _ _ Hl Hit) as [Hle _]. simpl in Hle. lia.
+      * destruct (g_layout g); [|discriminate].
+        assert (Hit : has_item T s 1 1) by (exists st; split; assumption).
+        destruct (linked_top_items g T Hsound 0 (is_start_0 T) _ _ _ _ _ Hl Hit) as [Hle _]. simpl in Hle. lia.
+Qed.
+
+Theorem lr_any_lexer_no_panic_main lex w : forall fuel n,
+  run_lex g T lex fuel (init 0 w) <> Panic n.
+Proof.
+  assert (H : forall fuel c n, linked g T 0 (c_stk c) (c_trs c) -> run_lex g T lex fuel c <> Panic n).
+  { induction fuel as [|fuel IH]; intros c n Hl; simpl; [discriminate|].
+    destruct (step_lex g T lex c) as [c'|o] eqn:Hstep.
+    - apply IH. eapply step_lex_linked; eassumption.
+    - intros ->. eapply step_lex_no_panic; eassumption. }
+  intros fuel n. apply H. simpl. constructor.
+Qed.
+
+End CustomLexer.
